@@ -45,7 +45,28 @@ fn derive_ts(leaps: &[(i64, i32)], extra: &[i64]) -> Vec<i64> {
 }
 
 pub fn check_leap(c: &LeapCase, st: &mut Stats) -> Result<(), String> {
-    if !oleap::valid_table(&c.leaps) {
+    // A table whose first record lies before the epoch is outside the statement's "valid leap tables": the constructor refuses it
+    // (C13 decides that), and the case is only counted. If the crate at hand *accepts* such a table, it is a table of a zone a user
+    // can hold, and the two conversions must still agree with each other and with the sequential model on it (seeded change
+    // C12-r13m1: the first-record clause dropped at the constructor, and a "nothing happens before 1970" shortcut in one direction).
+    let pre_epoch = c.leaps.first().map(|r| r.0 < 0).unwrap_or(false);
+    if pre_epoch {
+        let mut shifted = c.leaps.clone();
+        let t0 = shifted[0].0;
+        for r in shifted.iter_mut() {
+            r.0 -= t0;
+        }
+        if !oleap::valid_table(&shifted) {
+            return Err("generator produced an invalid leap table".into());
+        }
+        let l: Vec<LeapSecond> = c.leaps.iter().map(|&(t, k)| LeapSecond::new(t, k)).collect();
+        let ltt = LocalTimeType::utc();
+        if TimeZone::new(vec![], vec![ltt], l, None).is_err() {
+            st.class("pre_epoch_table_refused");
+            return Ok(());
+        }
+        st.class("pre_epoch_table_accepted");
+    } else if !oleap::valid_table(&c.leaps) {
         return Err("generator produced an invalid leap table".into());
     }
     let a = LocalTimeType::new(c.off_a, false, Some(b"AAA")).map_err(|e| format!("{e:?}"))?;
@@ -255,6 +276,20 @@ pub fn run(ctx: &Ctx) -> Outcome {
         .prop_map(|(leaps, extra, off_a, gap)| {
             let ts = if extra.is_empty() { vec![] } else { derive_ts(&leaps, &extra) };
             LeapCase { leaps, ts, off_a, gap }
+        });
+    // one case in eight: the same table moved so that its first record lies before the epoch (refused by an intact constructor)
+    let strat = (strat, prop_oneof![7 => Just(0i64), 1 => prop_oneof![Just(1i64), 1i64..100_000_000, 1i64..4_000_000_000]])
+        .prop_map(|(mut c, shift)| {
+            if shift > 0 && !c.leaps.is_empty() && c.leaps[0].0 < (1i64 << 40) {
+                let d = c.leaps[0].0 + shift;
+                for r in c.leaps.iter_mut() {
+                    r.0 -= d;
+                }
+                if !c.ts.is_empty() {
+                    c.ts = c.ts.iter().map(|t| t.saturating_sub(d)).collect();
+                }
+            }
+            c
         });
     let cases = ctx.tier.pick(6_000u32, 40_000u32);
     let rs = par_shards(16, |shard, st| pt_shard(ctx, "leap", shard, cases, &strat, st, check_leap));
